@@ -95,7 +95,12 @@ theorem addCoreG_table (cfg : Cfg) (hf : Nat → Nat) (st : St) (it : Item) (crT
         cases hadd : addNogrowGen cfg.sp g (hf it.key) it with
         | none => simp
         | some r => simp
-  · simp only [h1, decide_false, Bool.false_or, if_false]
+  · simp only [h1, decide_false, Bool.false_or, if_false, Bool.not_false, Bool.true_and]
+    cases hgl : growLog cfg.sp st.t with
+    | none => simp
+    | some nl =>
+    have hD : growLogD cfg.sp st.t = nl := by unfold growLogD; rw [hgl]; rfl
+    simp only [Option.isNone_some, Bool.false_eq_true, if_false, hD]
     cases hgr : f.grow with
     | true =>
       simp only [Bool.true_and, Bool.true_or, if_true]
@@ -125,7 +130,7 @@ theorem addCoreG_table (cfg : Cfg) (hf : Nat → Nat) (st : St) (it : Item) (crT
         | true => simp
         | false =>
           simp only [Bool.false_eq_true, if_false]
-          cases hadd : addNogrowGen cfg.sp (emptyGen cfg.sp (newLog cfg.sp st.t)) (hf it.key) it with
+          cases hadd : addNogrowGen cfg.sp (emptyGen cfg.sp nl) (hf it.key) it with
           | none => simp
           | some r => simp
 
@@ -214,6 +219,7 @@ theorem addL_table (cfg : Cfg) (hf : Nat → Nat) (st : St) (it : Item) (cr : Cr
     by_cases hlen : t1'.gens.length > 1 <;> simp [hlen]
   | full => simp only; exact ⟨c1, trivial⟩
   | badAlloc => simp only; exact ⟨c1, trivial⟩
+  | invalid => simp only; exact ⟨c1, trivial⟩
 
 /-! ### the books agree with the table -/
 
@@ -253,6 +259,8 @@ theorem addPrepL_shape (cfg : Cfg) (hf : Nat → Nat) (st : St) (it : Item) (crT
     PrepShape cfg st (addPrepL cfg hf st it crT f w) := by
   unfold addPrepL
   split
+  · exact ⟨rfl, by simp⟩
+  split
   · cases hg : st.t.gens with
     | nil => exact ⟨rfl, by simp⟩
     | cons g rest =>
@@ -286,7 +294,7 @@ theorem addPrepL_shape (cfg : Cfg) (hf : Nat → Nat) (st : St) (it : Item) (crT
             show (if crT = true then Outcome.badAlloc else Outcome.full) ≠ .ok
             split <;> simp
           · rename_i g' idx hsome
-            have hadd : addNogrowGen cfg.sp (emptyGen cfg.sp (newLog cfg.sp st.t)) (hf it.key) it = some (g', idx) := by
+            have hadd : addNogrowGen cfg.sp (emptyGen cfg.sp (growLogD cfg.sp st.t)) (hf it.key) it = some (g', idx) := by
               cases crT with
               | false => simpa using hsome
               | true => simp at hsome
@@ -302,7 +310,7 @@ theorem addPrepL_shape (cfg : Cfg) (hf : Nat → Nat) (st : St) (it : Item) (crT
             show (if crT = true then Outcome.badAlloc else Outcome.full) ≠ .ok
             split <;> simp
           · rename_i g' idx hsome
-            have hadd : addNogrowGen cfg.sp (emptyGen cfg.sp (newLog cfg.sp st.t)) (hf it.key) it = some (g', idx) := by
+            have hadd : addNogrowGen cfg.sp (emptyGen cfg.sp (growLogD cfg.sp st.t)) (hf it.key) it = some (g', idx) := by
               cases crT with
               | false => simpa using hsome
               | true => simp at hsome
@@ -383,6 +391,7 @@ theorem addL_cons (cfg : Cfg) (hf : Nat → Nat) (ok : SpecOK cfg.sp) (st : St) 
     exact ((hc.keys.cons it.key).trans (by simp)).trans (i2.map (·.key)).symm
   | full => simp at hok
   | badAlloc => simp at hok
+  | invalid => simp at hok
 
 /-- a failed `pvAdd` returns the same container -/
 theorem addL_fail_same (cfg : Cfg) (hf : Nat → Nat) (st : St) (it : Item) (cr : Creator) (f : Flt) (w : W) (hs : Shape cfg st)
@@ -399,6 +408,7 @@ theorem addL_fail_same (cfg : Cfg) (hf : Nat → Nat) (st : St) (it : Item) (cr 
     | ok => exact absurd rfl p2
     | full => exact p1
     | badAlloc => exact p1
+    | invalid => exact p1
   | inr r =>
     rw [hprep] at hne
     simp at hne
